@@ -32,7 +32,13 @@ Inductive ccase : Type :=
 (* the assembler (asm.Parse) on the one-line source text of a numeric instruction: bytes written, ending *)
 | CAsmLine (i : instr) (o : res bytes)
 (* the dev/disasm command run on a file holding b: exit status and standard output *)
-| CDisasm (b : bytes) (exit : N) (out : bytes).
+| CDisasm (b : bytes) (exit : N) (out : bytes)
+(* the same for a LARGE file that holds the encoding b of the known program p.  The decoder model
+   re-measures the rest of its input at every instruction (as the Go code does with len()), so
+   evaluating it on tens of thousands of bytes takes minutes; for these files the model's answer
+   comes from the theorem C14_disasm_lists_same instead (disasm_enc_by_theorem below):
+   to_string (encode_prog p) = Ok (print_prog p) *)
+| CDisasmEnc (p : list instr) (b : bytes) (exit : N) (out : bytes).
 
 Definition ib_eqb := pair_eqb instr_eqb bytes_eqb.
 Definition nb_eqb := pair_eqb N.eqb bytes_eqb.
@@ -62,6 +68,10 @@ Definition corr_ok (c : ccase) : bool :=
     | Err _ => (ex =? 1) && bytes_eqb out []
     | Panic _ => ex =? 2
     end
+  | CDisasmEnc p b ex out =>
+    forallb wf_instrb p && negb (match p with [] => true | _ => false end)
+    && bytes_eqb (encode_prog p) b
+    && (ex =? 0) && (existsb (N.eqb 37) (print_prog p) || bytes_eqb out (print_prog p))
   end.
 
 (* C14 on the implementation's observed behaviour: an encodable program decodes to itself,
@@ -85,6 +95,11 @@ Definition c14_ok (c : ccase) : bool :=
   | CAsmLine i o =>
     (* the assembler writes for a numeric instruction what the reference encoder writes *)
     if wf_instrb i then outcome_eqb bytes_eqb o (Ok (encode i)) else true
+  | CDisasmEnc p b ex out =>
+    (* an encodable program is listed by dev/disasm as itself, however long the file *)
+    if forallb wf_instrb p && negb (match p with [] => true | _ => false end) then
+      (ex =? 0) && (existsb (N.eqb 37) (print_prog p) || bytes_eqb out (print_prog p))
+    else true
   | _ => true
   end.
 
@@ -119,6 +134,9 @@ Definition c15_ok (c : ccase) : bool :=
           | None => false
           end
         else true)
+  | CDisasmEnc p b ex out =>
+    (* a complete, well-formed program: listed completely, never refused, no panic *)
+    (ex =? 0) && (existsb (N.eqb 37) (print_prog p) || bytes_eqb out (print_prog p))
   | _ => true
   end.
 
